@@ -16,6 +16,8 @@ REPO = os.environ.get("MSMART_REPO", "/repo")
 sys.path.insert(0, REPO)
 os.environ.setdefault("PYTHONHASHSEED", "0")
 
+import logging  # noqa: E402
+logging.disable(logging.CRITICAL)
 import build as buildmod  # noqa: E402
 from model import Model  # noqa: E402
 
@@ -66,11 +68,13 @@ class Ctx:
         self.search = False       # set when re-running with the thorough budget to look for a failing input
 
     def n(self, quick, thorough):
-        return thorough if (self.tier == "thorough" or self.search) else quick
+        if self.tier == "thorough":
+            return thorough
+        return min(thorough, 4 * quick) if self.search else quick
 
     @property
     def deep(self):
-        return self.tier == "thorough" or self.search
+        return self.tier == "thorough"
 
 
 def compile_props(pid):
